@@ -422,6 +422,35 @@ func runEarlyErrors(r *engine.Run) {
 		}
 		try(fmt.Sprintf("jump/%d/x", ci), strings.ReplaceAll(c, "%s", "x ( ) ;"))
 	}
+	// sibling histories: the parser state left behind by an earlier, complete
+	// sibling statement (label stack slots, iteration-label flags, inSwitch /
+	// inIteration / inFunction, allowIn) must not change the verdict for the
+	// next statement. Every history is placed before the whole text and
+	// directly after every `{` of the context, one position at a time.
+	histories := []string{
+		"a : while ( 0 ) ;", "L : while ( 0 ) ;", "M : for ( ; ; ) break M ;", "a : b : for ( ; ; ) continue a ;", "L : M : do ; while ( 0 ) ;",
+		"a : { }", "L : { break L ; }", "a : switch ( 0 ) { default : break a ; }", "while ( 0 ) ;", "for ( k in o ) continue ;", "switch ( 0 ) { case 1 : break ; }",
+		"switch ( 0 ) { case 1 : switch ( 1 ) { } }", "function g ( ) { L : while ( 0 ) continue L ; return ; }", "h = function ( ) { M : for ( ; ; ) break M ; } ;",
+		"try { } catch ( e ) { }", "for ( var i = 0 in { } ) ;", "for ( a ? p in q : d ; ; ) break ;", "a : L : ;", "if ( 0 ) L : while ( 0 ) ;", "{ L : while ( 0 ) ; }",
+	}
+	for hi, hs := range histories {
+		for ci, c := range contexts {
+			toks := strings.Split(c, " ")
+			var places []int
+			places = append(places, 0)
+			for ti, t := range toks {
+				if t == "{" {
+					places = append(places, ti+1)
+				}
+			}
+			for pi, pl := range places {
+				with := strings.Join(append(append(append([]string(nil), toks[:pl]...), hs), toks[pl:]...), " ")
+				for ji, j := range jumps {
+					try(fmt.Sprintf("hist/%d/%d/%d/%d", hi, ci, pi, ji), strings.ReplaceAll(with, "%s", j))
+				}
+			}
+		}
+	}
 	// switch clauses: every sequence of <= 4 clauses over {case, default}
 	for l := 0; l <= 4; l++ {
 		for m := 0; m < 1<<uint(l); m++ {
